@@ -152,7 +152,7 @@ class Scenario:
         self.boxes: dict[str, simnet.NatBox] = {}
         self.all: list = []
         self.hist: list[str] = []
-        self.pr_requester: dict[int, object] = {}     # puncture-request flight seq -> requesting node
+        self.pr_requester: dict[int, tuple] = {}      # puncture-request flight seq -> (requesting node, introducer)
         self.events: list[dict] = []
         self.picks = Picks(case["picks"])
         cls = overlay_class()
@@ -276,7 +276,7 @@ class Scenario:
                                   f"lan={d['lan_intro']} wan={d['wan_intro']} but sent no puncture-request for it "
                                   f"(sent: {[self.mid(f) for f in emitted]})")
                     for f in prs:
-                        self.pr_requester[f.seq] = sender
+                        self.pr_requester[f.seq] = (sender, rcv)
                         pd = safe_decode(f.data)
                         mine = {self.pub(sender), sender.address}
                         if pd["wan_walker"] not in mine and pd["lan_walker"] not in mine:
@@ -285,11 +285,12 @@ class Scenario:
                                       f"{pd['wan_walker']}, neither is an address of the requester {sender.name} "
                                       f"({sorted(mine)})")
         if mid in PUNCT_REQ and fl.seq in self.pr_requester:
-            req = self.pr_requester[fl.seq]
+            req, introducer = self.pr_requester[fl.seq]
             puncts = [f for f in emitted if self.mid(f) in PUNCT]
             if not puncts:
                 self.fail("N1", "puncture", f"{rcv.name} got a puncture-request for {req.name} and sent no puncture")
-            if req is not rcv:
+            # the statement quantifies over a public introducer (one that sees the requester's WAN address)
+            if req is not rcv and self.box_of(introducer) is None:
                 if not self.same_box(req, rcv):
                     if not any(f.dst == self.pub(req) for f in puncts):
                         self.fail("N1", "puncture-target",
@@ -349,8 +350,11 @@ class Scenario:
         else:
             A.overlay.walk_to(UDPv4Address(*I.address))
         reqs = net.log[mark:]
-        if len(reqs) != 1 or self.mid(reqs[0]) != (234 if self.case["style"] == "new" else 246):
+        # (a later old-style round may turn new-style by itself: the introduced peer can re-introduce I as new-style)
+        if len(reqs) != 1 or self.mid(reqs[0]) not in INTRO_REQ or (
+                rno == 0 and self.mid(reqs[0]) != (234 if self.case["style"] == "new" else 246)):
             raise HarnessError(f"unexpected request flights {[self.mid(f) for f in reqs]} for style {self.case['style']}")
+        self.hist.append("request_msg:%d" % self.mid(reqs[0]))
         m2 = len(net.log)
         if self.deliver(reqs[0]) is not I:
             raise HarnessError("A's introduction request did not reach the public introducer")
@@ -390,7 +394,9 @@ class Scenario:
             if n == 0:
                 return False
             k = self.picks.next(n)
-            if k < len(flights):
+            if walkable:
+                k -= 1                 # the early walk is action 0 while it is available
+            if k >= 0:
                 fl = flights[k]
                 m = len(net.log)
                 rcv = self.deliver(fl)
@@ -460,9 +466,10 @@ class Scenario:
             self.fail(clause, "walk", f"{desc}: the puncture left {X.name}'s NAT (seq {punct_seq}) yet none of A's "
                                       f"later walks {[(w.seq, w.dst) for w in required]} reached {X.name}; filtered "
                                       f"at its NAT: {dropped}")
-        answers = [e for e in self.events if e["from"] == X.name and e["mid"] in INTRO_RESP and e["to"] == "A"]
+        mine = [e for e in self.events if e["seq"] > reqs[0].seq and e["from"] == X.name and e["mid"] in INTRO_RESP]
+        answers = [e for e in mine if e["to"] == "A"]
         if not answers:
-            lost = [e for e in self.events if e["from"] == X.name and e["mid"] in INTRO_RESP]
+            lost = mine
             self.fail(clause, "response", f"{desc}: {X.name}'s introduction-response did not come back to A "
                                           f"(sent to {[e['dst'] for e in lost]}, expected {a_addr})")
         if same and (answers[0]["dst"] != A.address or not any(got.get(w.seq) is X and w.dst == X.address
@@ -494,6 +501,10 @@ def execute(ctx: Ctx | None, case: dict) -> list[dict]:
     saved = random.getstate()
     try:
         vloop.run(main)
+    except Violation:
+        if ctx is not None:
+            ctx.case(case, True, cls="%s-%s-%s" % (case["natA"], case["natB"], case["place"]))
+        raise
     finally:
         random.setstate(saved)
         if ctx is not None:
@@ -537,7 +548,8 @@ def _strategy(cfg: dict):
         "fillers": st.lists(filler, min_size=k - 1, max_size=k - 1),
         "rseed": st.integers(0, 65535),
         "rounds": st.integers(1, min(3, k)),
-        "picks": st.lists(st.integers(0, 11), max_size=60),
+        "picks": st.one_of(st.lists(st.integers(0, 11), max_size=60),
+                           st.lists(st.integers(0, 11), min_size=12, max_size=60)),
         "early": st.integers(0, 2),
         "order": st.integers(0, 23),
     })
@@ -558,12 +570,12 @@ def _shard(ctx: Ctx, shard: int, nshards: int, n: int) -> None:
                     "b_new": cfg["b_new"], **x}
             execute(ctx, case)
         hyp_run(ctx, "cfg%03d" % idx, _strategy(cfg), body, n, shrink_examples=150)
-    ctx.note("configurations", len(cfgs))
 
 
 def run(ctx: Ctx) -> None:
     shard_run(ctx, _shard, extra=(20 if ctx.quick else 400,))
     ctx.note("placements", 19)
+    ctx.note("configurations", len(configurations()))
 
 
 def replay(ctx: Ctx, case: dict) -> None:
